@@ -37,7 +37,7 @@ import (
 // results); Corr/C07.v replays that in the LTS.
 
 type c07Op struct {
-	Op string `json:"op"` // start | release | faketoken | sethave | hloop
+	Op string `json:"op"` // start | release | faketoken | sethave | hloop | enq | flush
 	W  int    `json:"w,omitempty"`
 	B  bool   `json:"b,omitempty"`
 }
@@ -72,11 +72,29 @@ func c07Gen(r *rng.Rand, i int, tier string) interface{} {
 	case kind < 60: // forced schedules against the real loop
 		in.Mode = "loop"
 		in.Gated = !r.Chance(15)
+		// some writers perform the two halves of WriteCSM (queue the records / RequestFlush) at different points, so
+		// that a flush started for another writer can drain their records in between
+		var late []int
 		for _, w := range order {
 			for r.Chance(35) {
 				in.Ops = append(in.Ops, c07Op{Op: "release"})
 			}
-			in.Ops = append(in.Ops, c07Op{Op: "start", W: w})
+			if r.Chance(30) {
+				in.Ops = append(in.Ops, c07Op{Op: "enq", W: w})
+				late = append(late, w)
+			} else {
+				in.Ops = append(in.Ops, c07Op{Op: "start", W: w})
+			}
+			if len(late) > 0 && r.Chance(50) {
+				in.Ops = append(in.Ops, c07Op{Op: "flush", W: late[0]})
+				late = late[1:]
+			}
+		}
+		for _, w := range late {
+			if r.Chance(40) {
+				in.Ops = append(in.Ops, c07Op{Op: "release"})
+			}
+			in.Ops = append(in.Ops, c07Op{Op: "flush", W: w})
 		}
 		for r.Chance(50) {
 			in.Ops = append(in.Ops, c07Op{Op: "release"})
@@ -130,6 +148,7 @@ type c07run struct {
 	fake        map[int]chan struct{} // harness-played writers blocked on their token
 	fakeRet     map[int]*int32
 	unexplained []int
+	enqd        []bool
 	firstRet    map[int]bool
 	obs         c07Obs
 	holds       bool
@@ -248,7 +267,7 @@ func (c *c07run) observe(opIdx int) {
 	c.ev(fmt.Sprintf("OWch %d", executor.VerifHWriteLen(c.inst.WAL)))
 	c.ev("OHave " + cq.Bool(executor.VerifHGetHave()))
 	for w, k := range c.in.Ks {
-		if !c.startedW[w] || k == 0 {
+		if (!c.startedW[w] && !c.enqd[w]) || k == 0 {
 			continue
 		}
 		vis, err := c.inst.Visible(w)
@@ -276,6 +295,17 @@ func (c *c07run) observe(opIdx int) {
 			}
 		}
 	}
+}
+
+// spawnFlush runs only the second half of WriteCSM (RequestFlush) for a writer whose records were queued by "enq".
+func (c *c07run) spawnFlush(w int) {
+	c.started++
+	c.startedW[w] = true
+	go func() {
+		defer func() { recover() }()
+		c.inst.WAL.RequestFlush()
+		atomic.StoreInt32(&c.ret[w], 1)
+	}()
 }
 
 func (c *c07run) spawn(w int) {
@@ -311,6 +341,7 @@ func c07Run(raw json.RawMessage) (res Result, err error) {
 	c.obs.Returned = map[string]int{}
 	c.ret = make([]int32, len(in.Ks))
 	c.startedW = make([]bool, len(in.Ks))
+	c.enqd = make([]bool, len(in.Ks))
 	c.inst, err = schedx.New(len(in.Ks), in.Gated && in.Mode == "loop", false)
 	if err != nil {
 		return res, err
@@ -348,17 +379,36 @@ opsLoop:
 			go func() { <-f; atomic.StoreInt32(&c.ret[w], 1) }()
 			c.labf("RdHave %d true", w)
 			c.labf("SendTok %d", w)
-		case "start":
+		case "enq": // first half of WriteCSM only: the records are queued, RequestFlush is not called yet
 			w := op.W
-			if w < 0 || w >= len(in.Ks) || c.startedW[w] {
+			if w < 0 || w >= len(in.Ks) || c.startedW[w] || c.enqd[w] || in.Mode != "loop" {
+				continue
+			}
+			if e := c.inst.EnqueueOnly(w, in.Ks[w]); e != nil {
+				return res, e
+			}
+			c.enqd[w] = true
+			for i := 0; i < in.Ks[w]; i++ {
+				c.labf("Enq %d", w)
+			}
+		case "start", "flush":
+			w := op.W
+			if w < 0 || w >= len(in.Ks) || c.startedW[w] || (op.Op == "flush") != c.enqd[w] {
 				continue
 			}
 			k := in.Ks[w]
+			if op.Op == "flush" {
+				k = 0 // its Enq labels were emitted by "enq"
+			}
 			parked0 := S.IsParked()
 			fl0 := executor.VerifHFlushLen(c.inst.WAL)
 			have0 := executor.VerifHGetHave()
 			hits0 := S.NHits()
-			c.spawn(w)
+			if op.Op == "flush" {
+				c.spawnFlush(w)
+			} else {
+				c.spawn(w)
+			}
 			if !c.quiesce() {
 				stuck(fmt.Sprintf("start %d", w))
 				break opsLoop
